@@ -440,3 +440,8 @@ m("x7-manual-mmap-clone-reversed", "C10", MM, "#[derive(Clone, Debug, Default)]\
   "impl<B: Clone> Clone for GuestMemoryMmap<B> {\n    fn clone(&self) -> Self {\n        GuestMemoryMmap { regions: self.regions.iter().rev().cloned().collect() }\n    }\n}\n#[derive(Debug, Default)]\npub struct GuestMemoryMmap<B = ()> {", "?")
 m("x7-manual-endian-default-one", "C20", EN, "        #[derive(Copy, Clone, Eq, PartialEq, Debug, Default)]\n        #[repr(transparent)]\n        pub struct $new_type($old_type);",
   "        #[derive(Copy, Clone, Eq, PartialEq, Debug)]\n        #[repr(transparent)]\n        pub struct $new_type($old_type);\n        impl Default for $new_type {\n            fn default() -> $new_type {\n                $new_type(1)\n            }\n        }", "?")
+
+# polarity of the bitmap's marking entries (R9.6): found by probing, not reported by any rule before
+m("x7-bitmap-arms-swapped", "C09,C05,C16", AB, "            if set {", "            if !set {", "R9.6.polarity")
+m("x7-bitmap-set-passes-false", "C09,C05,C16", AB, "self.set_reset_addr_range(start_addr, len, true);", "self.set_reset_addr_range(start_addr, len, false);", "R9.6.polarity")
+m("x7-bitmap-set-bit-clears", "C09", AB, "self.map[index >> 6].fetch_or(1 << (index & 63), Ordering::SeqCst);", "self.map[index >> 6].fetch_and(!(1 << (index & 63)), Ordering::SeqCst);", "R9.6.polarity", occ=0)
